@@ -665,7 +665,7 @@ func trackRun(e *Env) {
 	net.me = &netUser{nick: "me", ident: "sim", host: "host.sim", name: "Sim User"}
 	net.users = append(net.users, net.me)
 	for i := 0; i < nUsers; i++ {
-		net.users = append(net.users, &netUser{nick: names[i], ident: "id" + names[i], host: names[i] + ".host.sim", name: "Real " + names[i]})
+		net.users = append(net.users, &netUser{nick: names[i], ident: "id" + names[i], host: names[i] + ".host.sim", name: "Real " + names[i] + []string{"", "", "", "", "", " ", " \t"}[g.Intn(7)]})
 	}
 	for i := 0; i < nChans; i++ {
 		c := &netChan{name: fmt.Sprintf(chanFmt, i), flags: map[byte]bool{}, members: map[*netUser]map[byte]bool{}}
@@ -681,7 +681,7 @@ func trackRun(e *Env) {
 			}
 		}
 		if g.Pct(60) {
-			c.topic = fmt.Sprintf("topic of %s", c.name)
+			c.topic = fmt.Sprintf("topic of %s", c.name) + []string{"", "", "", "", " ", " \t ", "   "}[g.Intn(7)]
 		}
 		for _, f := range "nts" {
 			if g.Pct(50) {
@@ -1183,7 +1183,11 @@ func trackRun(e *Env) {
 		case k == 6 && len(onChans) > 0:
 			ch := pick(onChans)
 			uniq++
-			topic := fmt.Sprintf("topic %d of %s", uniq, ch.name)
+			// free text is kept byte for byte, blanks at its end included
+			topic := fmt.Sprintf("topic %d of %s", uniq, ch.name) + []string{"", "", "", "", " ", "\t", "  \t "}[g.S.Choose(7)]
+			if g.S.Choose(20) == 0 {
+				topic = []string{" ", "\t ", "   "}[g.S.Choose(3)] // nothing but blanks is still a topic
+			}
 			if g.S.Choose(5) == 0 {
 				topic = "" // the topic is cleared
 			}
